@@ -5,21 +5,26 @@ import GeoModel.OpsAll
 
 open Geo
 
-def stripPrefixes : List String → List String
-  | "NZ" :: _ :: rest => stripPrefixes rest
-  | "DUP" :: rest => stripPrefixes rest
-  | ts => ts
+/-- Case prefixes, in any order: `NZ <k>` (negative-zero spelling for the implementation; −0.0 and +0.0 both decode to 0),
+`DUP` (marks a case in which the generator repeated a vertex — the repeated vertex is in the line itself), `SC <k>` (every input
+coordinate of the case is multiplied by 2^k on both sides; handed to the parsers as the marker token `@S<k>`). -/
+def stripPrefixes : Option String → List String → Option String × List String
+  | m, "NZ" :: _ :: rest => stripPrefixes m rest
+  | m, "DUP" :: rest => stripPrefixes m rest
+  | _, "SC" :: k :: rest => stripPrefixes (some ("@S" ++ k)) rest
+  | m, ts => (m, ts)
 
 def dispatch (line : String) : String :=
   -- `NZ <k>`: negative-zero spelling of the case for the implementation; -0.0 and +0.0 both decode to 0
   -- `DUP`: marks a case in which the generator repeated a vertex (the repeated vertex is in the line itself)
-  let toks := stripPrefixes (tokens line)
+  let (marker, toks) := stripPrefixes none (tokens line)
   match toks with
   | [] => "ERR empty"
   | op :: rest =>
     match splitArrow rest with
     | none => "ERR no-arrow"
-    | some (inp, out) =>
+    | some (inp0, out) =>
+      let inp := match marker with | some m => m :: inp0 | none => inp0
       match Geo.Ops.handlers.findSome? (fun h => h op inp out) with
       | some r => r
       | none => "ERR unknown-op " ++ op
